@@ -17,6 +17,86 @@ pub fn norm_verr(e: &str) -> String {
     s.chars().take(80).collect()
 }
 
+/// For an output rejected with "undeclared function reference" after gc: was the offending
+/// function declared, in the *input*, by something the property's reachability rules keep?
+/// (narrows the known finding "gc drops the only, unreachable, declaring segment" so that a
+/// different way of losing a declaration is still reported)
+pub fn undeclared_kind(input: &[u8], out: &[u8]) -> &'static str {
+    use wmodel::{decode, iso, reach::reach, ElemItems, Imm, IsoMode, Space};
+    let (a, b) = match (decode(input), decode(out)) {
+        (Ok(a), Ok(b)) => (a, b),
+        _ => return "undetermined",
+    };
+    // functions declared in the output: exports, element segments, global initialisers
+    let mut declared = vec![false; b.funcs.len()];
+    let mut mark = |ops: &[wmodel::Op], d: &mut Vec<bool>| {
+        for o in ops {
+            for im in &o.imms {
+                if let Imm::Func(f) = im {
+                    if let Some(x) = d.get_mut(*f as usize) {
+                        *x = true;
+                    }
+                }
+            }
+        }
+    };
+    for e in &b.exports {
+        if e.space == Space::Func {
+            declared[e.index as usize] = true;
+        }
+    }
+    for e in &b.elems {
+        match &e.items {
+            ElemItems::Funcs(v) => v.iter().for_each(|f| declared[*f as usize] = true),
+            ElemItems::Exprs(v) => v.iter().for_each(|x| mark(x, &mut declared)),
+        }
+    }
+    for g in &b.globals {
+        if let Some(i) = &g.init {
+            mark(i, &mut declared);
+        }
+    }
+    let mut offenders = vec![];
+    for f in &b.funcs {
+        if let Some(body) = &f.body {
+            for (op, _) in &body.ops {
+                if op.name == "RefFunc" {
+                    if let Some(Imm::Func(t)) = op.imms.first() {
+                        if !declared[*t as usize] {
+                            offenders.push(*t);
+                        }
+                    }
+                }
+            }
+        }
+    }
+    let maps = match iso(&a, &b, IsoMode::Gc) {
+        Ok(m) => m,
+        Err(_) => return "undetermined",
+    };
+    let ra = reach(&a);
+    for t in offenders {
+        let fi = match maps.r(Space::Func, t) {
+            Some(x) => x,
+            None => return "undetermined",
+        };
+        // declared in the input by a *reachable* entity?
+        let by_export = a.exports.iter().any(|e| e.space == Space::Func && e.index == fi);
+        let by_elem = a.elems.iter().enumerate().any(|(k, e)| {
+            ra.elems[k]
+                && match &e.items {
+                    ElemItems::Funcs(v) => v.contains(&fi),
+                    ElemItems::Exprs(v) => v.iter().any(|x| x.iter().any(|o| o.imms.contains(&Imm::Func(fi)))),
+                }
+        });
+        let by_global = a.globals.iter().enumerate().any(|(k, g)| ra.globals[k] && g.init.as_ref().map(|i| i.iter().any(|o| o.imms.contains(&Imm::Func(fi)))).unwrap_or(false));
+        if by_export || by_elem || by_global {
+            return "declaration-was-reachable";
+        }
+    }
+    "declared-only-by-unreachable-segment"
+}
+
 /// judge one emitted binary
 pub fn judge_output(prop: &str, out: &[u8], stage: &str, c: &Case, r: &mut CaseResult) {
     match validate214(out, FeatureSet::DEFAULT) {
@@ -26,7 +106,11 @@ pub fn judge_output(prop: &str, out: &[u8], stage: &str, c: &Case, r: &mut CaseR
             }
         }
         Err(e) => {
-            r.violations.push(Violation::new(prop, format!("invalid-output:{}:{}", stage, norm_verr(&e)), format!("the reference validator rejects walrus's output: {}", e), c));
+            let mut sig = format!("invalid-output:{}:{}", stage, norm_verr(&e));
+            if stage == "after-gc" && e.contains("undeclared function reference") {
+                sig = format!("{}:{}", sig, undeclared_kind(&c.wasm, out));
+            }
+            r.violations.push(Violation::new(prop, sig, format!("the reference validator rejects walrus's output: {}", e), c));
         }
     }
 }
